@@ -21,22 +21,22 @@ def opaque_result(ex, st, ins, what):
         return None
     has_refs = any(srt == 'Any' or (srt == 'Int' and (ex.m.kind(tk) in ('pointer', 'map', 'slice', 'signature', 'chan')))
                    for (pth, srt, tk) in ex.m.layout(t))
-    if has_refs:
-        na = ex.m.fresh('alloc_x', ex.m.Int)
-        st.assume(na >= st.alloc)
-        st.alloc = na
+    # objects handed out by code outside the module are not owned by the caller: they are treated like
+    # objects that existed before the verified function was entered (never "fresh", never writable
+    # unless the modifies clause names them)
+    def external(v):
+        ex.assume_refs(st, v)
+        ex.type_invariant(st, v)
+        for (pth, srt, tk), leaf in zip(ex.m.layout(v.t), v.leaves):
+            if srt == 'Int' and (ex.m.kind(tk) in ('pointer', 'map') or (ex.m.kind(tk) == 'slice' and pth.endswith('#arr'))):
+                st.assume(leaf < ex.entry_alloc)
+        return v
     if ex.m.types[t]['kind'] == 'tuple':
         vals = []
         for e in ex.m.types[t]['elems']:
-            v = ex.m.fresh_val(e, 'x_' + what.split('.')[-1][:12])
-            ex.assume_refs(st, v)
-            ex.type_invariant(st, v)
-            vals.append(v)
+            vals.append(external(ex.m.fresh_val(e, 'x_' + what.split('.')[-1][:12])))
         return ex.tuple_val(t, vals)
-    v = ex.m.fresh_val(t, 'x_' + what.split('.')[-1][:12])
-    ex.assume_refs(st, v)
-    ex.type_invariant(st, v)
-    return v
+    return external(ex.m.fresh_val(t, 'x_' + what.split('.')[-1][:12]))
 
 
 # ----------------------------------------------------------------------------- built-ins
